@@ -9,10 +9,10 @@ def run(ctx):
     T = ctx.thorough
     tmo = 900 if T else 100
     obs = [
-        Ob('redact', 'ob_redact', 'p: str, s: str, v: str', packed=[('vkind', 6)], pre=['len(p) <= 2', 'len(s) <= 2', 'len(v) <= 2', 'all(c in "ab_<" for c in p + s + v)'],
-           cells=[('kind%d_p%d_s%d' % (k, a, b), [{'vkind': k}, 'len(p) == %d' % a, 'len(s) == %d' % b]) for k in range(6) for a in range(3) for b in range(3)],
-           timeout=tmo, twin_fn='tw_redact', twin_pre=[{'vkind': 0}, 'len(p) == 1', 'len(s) == 1'],
-           desc='get_resource_info: key = p + "secret" + s (symbolic p, s), value V+v+W as str / bytes / list / dict / object-with-that-repr / tuple: marker, and the value in no field'),
+        Ob('redact', 'ob_redact', 'p: str, s: str, v: str', packed=[('vkind', 6), ('pad', 5)], pre=['len(p) <= 2', 'len(s) <= 2', 'len(v) <= 2', 'all(c in "ab_<" for c in p + s + v)'],
+           cells=[('kind%d_pad%d_p%d_s%d' % (k, pd, a, b), [{'vkind': k, 'pad': pd}, 'len(p) == %d' % a, 'len(s) == %d' % b]) for k in range(6) for pd in range(5) for a in range(3) for b in range(3) if (T or pd == 0 or (k == 0 and a + b <= 2))],
+           timeout=tmo, twin_fn='tw_redact', twin_pre=[{'vkind': 0, 'pad': 0}, 'len(p) == 1', 'len(s) == 1'],
+           desc='get_resource_info: key = PAD + p + "secret" + s (symbolic p, s; PAD of 0/33/36/39/70 characters puts the word around the 40- and 70-character marks), value V+v+W as str / bytes / list / dict / object-with-that-repr / tuple: marker, and the value in no field'),
         Ob('visible', 'ob_visible', 'key: str, v: str', pre=['len(key) <= 5', 'len(v) <= 2', '"secret" not in key', 'all(c in "secrt<" for c in key)', 'all(c in "a<\'" for c in v)'],
            cells=[('key%d' % n, ['len(key) == %d' % n]) for n in range(6)], timeout=tmo,
            desc='a key that does not contain "secret" keeps its (truncated) repr'),
